@@ -110,9 +110,18 @@ Record config := mkConfig { has_handler : N -> bool; has_default : bool; never_r
 
 (* a MessageHandler as far as the connection can tell: it reads k bytes of what it is offered
    (fewer if fewer are there) and then returns or panics *)
-Inductive hbeh := HRead (k : N) | HPanic (k : N).
-Definition hb_k (b : hbeh) : N := match b with HRead k | HPanic k => k end.
-Definition hb_panics (b : hbeh) : bool := match b with HRead _ => false | HPanic _ => true end.
+(* the value a handler panics with: handleGuarded's recover() treats them all alike (it only
+   chooses how to log); the kinds are spelled out so that "for every handler behaviour" visibly
+   includes panics raised by the Go runtime and the correspondence exercises each *)
+Inductive pval :=
+| PvString          (* panic("...") *)
+| PvError           (* panic(errors.New(..)) *)
+| PvRuntimeError    (* index out of range, nil map write, nil dereference, ...: a runtime.Error *)
+| PvOther.          (* any other value, e.g. panic(42) *)
+
+Inductive hbeh := HRead (k : N) | HPanic (k : N) (v : pval).
+Definition hb_k (b : hbeh) : N := match b with HRead k | HPanic k _ => k end.
+Definition hb_panics (b : hbeh) : bool := match b with HRead _ => false | HPanic _ _ => true end.
 
 (* the environment of one loop iteration: the ids that handleOutgoing registered in
    c.awaiting since the previous lookup, and what the handler (if one is called) does *)
@@ -181,7 +190,7 @@ Definition pass_to_handler (aw : list N) (h : header) (e : env_step) (bs : list 
       (if complete then PthOk d rest else PthErr d, aw2)
   | false, Some w =>
       (* handler reads through LimitReader(conn, n); deferred Copy drains the remainder;
-         its result replaces err: EOF inside the payload is not an error here *)
+         io.Copy does not report EOF: a stream that ends inside the payload is not an error here *)
       (PthOk (mkDispatch h None (Some (call_handler w false pl (e_beh e))) false HeaderSz) rest, aw2)
   | true, _ =>
       if maxbuf <? n then
@@ -193,9 +202,10 @@ Definition pass_to_handler (aw : list N) (h : header) (e : env_step) (bs : list 
         (PthOk (mkDispatch h (Some (RBuffered pl))
                   (option_map (fun w => call_handler w true pl (e_beh e)) hk) false (HeaderSz + n)) rest, aw2)
       else
-        (* ReadFull failed: `return err`, but the deferred `_, err = io.Copy(...)` on the
-           untouched LimitReader hits EOF at once and overwrites err with nil *)
-        (PthOk (mkDispatch h (Some RTruncated) None false (HeaderSz + n)) rest, aw2)
+        (* ReadFull failed: `return err`; the deferred drain no longer overwrites an earlier
+           error (since the fix 85a4e5b; before it the loop went on to the next header read and
+           ended there) *)
+        (PthErr (mkDispatch h (Some RTruncated) None false (HeaderSz + n)), aw2)
   end.
 
 (* how handleIncoming ends (the client is not closed by the user in this model) *)
@@ -203,7 +213,7 @@ Inductive ending :=
 | EndEOF             (* clean EOF at a frame boundary: "failed to get next message" *)
 | EndShortHeader     (* stream ends inside a header *)
 | EndBadHeader       (* declared message length < 10 *)
-| EndShortDiscard    (* stream ends inside a payload that was being discarded *)
+| EndShortDiscard    (* stream ends inside a payload that was being discarded, or buffered for a caller *)
 | EndWaitClose       (* clean EOF after a CloseConnectionResponse was seen: blocks on c.done *)
 | EndOutOfFuel.
 
